@@ -30,13 +30,23 @@ PROPS = {
         technique="structure-aware fuzzing (libFuzzer coverage guidance and rapidcheck tapes) of a libcoap endpoint on a virtual network: valid prefix to reach a protocol state, then raw and field-mutated hostile inputs; ASan/UBSan/assert + per-case watchdog + canary request + reference-decoder 'malformed is never delivered' oracle",
         level_text="Server role over UDP, TCP and WebSocket and client role over UDP; states: observation, Block1 upload in progress, Block2 download in progress, TCP/WS before, during and after session setup; "
                    "all log levels incl. DEBUG/OSCORE (coap_show_pdu walks every PDU again).",
-        level_note="Trusted base: sim/sim.cc, ref/refcodec.h (classification of malformed datagrams), sanitizer runtime. OSCORE-protected endpoints are attacked in C15's harness, DTLS/TLS records in C19's. 'Never loops forever' is a wall-clock watchdog of 60 s per case (normal cases take ~1 ms).",
-        quick=rc(6, 4000) + fuzz(6, 30000, max_len=700, timeout=60),
-        thorough=rc(4, 100000) + fuzz(12, 1500000, max_len=700, timeout=60),
+        level_note="Trusted base: sim/sim.cc, ref/refcodec.h (classification of malformed datagrams), sanitizer runtime. OSCORE-protected endpoints are attacked in C15's harness, DTLS/TLS records in C19's. 'Never loops forever' is a wall-clock watchdog of 20 s per case (normal cases take ~1 ms).",
+        quick=rc(6, 4000) + fuzz(6, 30000, max_len=700, timeout=20),
+        thorough=rc(4, 100000) + fuzz(12, 1500000, max_len=700, timeout=20),
         libs=["-lcrypto"],
-        case_timeout=60,
+        case_timeout=20,
         timeout_is_violation=True,
         **SIM,
+    ),
+    "C18": dict(
+        level="exploration",
+        technique="fault-injection property testing: for every scenario of a catalogue and every index k the k-th request to libcoap's typed allocator fails (ld --wrap); enumerated over all k with default parameters and generated over scenario parameters and failure pairs; ASan/UBSan/assert + allocation table + LeakSanitizer + canary exchange as oracle",
+        level_text="13 scenarios (set-up/tear-down, GET CON/NON, PUT, Block1, Block2, observe, async, OSCORE, URI helpers, .well-known/core, TCP, cache), both endpoints libcoap; the enumeration tier fails every single allocation of every scenario once.",
+        level_note="Trusted base: sim/alloc.cc (the allocation table and failure injection), sim/sim.cc, sanitizer runtimes. Only allocations through coap_malloc_type()/coap_realloc_type() are failed (not GnuTLS's or libc's own). 'The case returns' is a wall-clock watchdog of 30 s.",
+        quick=enum(4, 13 * 400) + rc(8, 6000),
+        thorough=enum(4, 13 * 400) + rc(12, 150000),
+        case_timeout=30,
+        **SIM_ALLOC,
     ),
     "C15": dict(
         level="exploration",
